@@ -1,10 +1,21 @@
 #!/usr/bin/env python3
-"""Validates MANIFEST.json and evidence/*.json against the harness schemas (run with python3-vt)."""
+"""Validates MANIFEST.json and evidence/*.json against the harness schemas (run with python3-vt), and that every committed evidence file is the record of a
+run on the clean tree: no violation outside the known findings, obligations all discharged (a file written while a seeded change was applied to /repo must
+not be committed)."""
 import json, sys, glob, os
 import jsonschema
 V = os.path.dirname(os.path.dirname(os.path.abspath(__file__)))
 ms = json.load(open("/root/.vp/MANIFEST.schema.json")); es = json.load(open("/root/.vp/EVIDENCE.schema.json"))
 jsonschema.validate(json.load(open(V + "/MANIFEST.json")), ms)
 print("manifest ok")
+bad = 0
 for f in sorted(glob.glob(V + "/evidence/*.json")):
-    jsonschema.validate(json.load(open(f)), es); print("ok", os.path.basename(f))
+    d = json.load(open(f))
+    jsonschema.validate(d, es)
+    cov = d.get("coverage", {})
+    if cov.get("obligations") != cov.get("discharged") or d.get("violations", 0) != len(cov.get("known_findings_printed", [])) and d.get("violations", 0) != 0 and not cov.get("known_findings_printed"):
+        print("STALE", os.path.basename(f), "obligations", cov.get("obligations"), "discharged", cov.get("discharged"), "violations", d.get("violations"))
+        bad += 1
+    else:
+        print("ok", os.path.basename(f))
+sys.exit(1 if bad else 0)
